@@ -196,6 +196,14 @@ def constraint(cons, geo, D, x0=None):
             X = np.atleast_2d(np.asarray(X, float))
             return np.abs(X[:, 0] - a) > w * max(1.0, abs(a))
 
+    elif name == "halfax":
+        # axis-aligned half-space: violated iff sign * (x[axis] - c) > 0
+        ax, sg, c = int(par[0]), float(par[1]), float(par[2])
+
+        def f(X):
+            X = np.atleast_2d(np.asarray(X, float))
+            return sg * (X[:, ax] - c) > 0
+
     elif name == "notpoint":
         p = np.array(par, float)
 
